@@ -645,6 +645,8 @@ func (vc *VC) copyOp(st *State, d, s *Term, pos token.Pos) *Term {
 
 func (vc *VC) typeTag(t types.Type) int {
 	k := types.TypeString(t, nil)
+	// byte/uint8 and rune/int32 are the same types
+	k = strings.ReplaceAll(strings.ReplaceAll(k, "byte", "uint8"), "rune", "int32")
 	if id, ok := vc.typeTags[k]; ok {
 		return id
 	}
@@ -656,7 +658,9 @@ func (vc *VC) typeTag(t types.Type) int {
 
 func (vc *VC) boxFns(t types.Type) (box, unbox string) {
 	s := vc.sortOf(t)
-	n := sanitize(types.TypeString(t, func(p *types.Package) string { return p.Name() }))
+	ts := types.TypeString(t, func(p *types.Package) string { return p.Name() })
+	ts = strings.ReplaceAll(strings.ReplaceAll(ts, "byte", "uint8"), "rune", "int32")
+	n := sanitize(ts)
 	box, unbox = "box_"+n, "unbox_"+n
 	if !vc.declared[box] {
 		vc.declared[box] = true
@@ -729,6 +733,7 @@ func (vc *VC) typeAssert(st *State, x *Term, at types.Type, commaOk bool, pos to
 	}
 	vc.obligeAndAssume(st, "typeassert", okc, "type assertion to "+at.String()+" succeeds", pos)
 	vc.assume(vc.typingFact(val))
+	vc.assumeAllocated(st, val) // whatever was put into the interface existed already
 	vc.assumeTypeInv(st, val)
 	return val
 }
